@@ -133,6 +133,10 @@ func getInputTypes(pkgInfo *loader.PackageInfo, call *ast.CallExpr) []types.Type
 	typs := make([]types.Type, len(call.Args))
 	for i, a := range call.Args {
 		typs[i] = pkgInfo.TypeOf(a)
+		if typs[i] != nil {
+			// an untyped constant argument is passed as a value of its default type
+			typs[i] = types.Default(typs[i])
+		}
 	}
 	return typs
 }
